@@ -83,3 +83,10 @@ Qed.
 
 Lemma tables_nodup : nodupb (map fst np_ufunc_override) = true /\ nodupb (map fst np_func_override) = true /\ nodupb (map fst dunder_routes) = true.
 Proof. vm_compute. auto. Qed.
+
+(* a ufunc METHOD (reduce, outer, at, ...) applied to tensors is forwarded to the same method of the mygrad ufunc / of the NumPy ufunc *)
+Lemma ufunc_method_honoured : au_honours_method_registered = true /\ au_honours_method_fallback = true.
+Proof. vm_compute. auto. Qed.
+(* the ** shortcuts are taken only for plain numbers and 0-d arrays: a Tensor exponent is never dropped from the graph *)
+Lemma shortcuts_only_for_plain_scalars : forall p, In p shortcut_operand_types -> shortcut_types_ok p = true.
+Proof. apply forallb_forall. vm_compute. reflexivity. Qed.
